@@ -66,6 +66,9 @@ def run_demo(seed, args, with_patch):
     failed = sum(int(b) for a, b in m) if m else 0
     if "error: could not compile" in out or "error[" in out:
         return None, out[-3000:]
+    if "process didn't exit successfully" in out and "signal:" in out:
+        keep = [l for l in out.splitlines() if re.search(r"overflowed|fatal runtime|signal:", l)]
+        return False, "\n".join(keep)[-1500:]
     if ran == 0:
         return None, "no demo test ran (filter %s)\n" % args["filter"] + out[-1500:]
     keep = [l for l in out.splitlines() if re.search(r"^test |panicked|left:|right:|test result", l)]
